@@ -928,7 +928,7 @@ func main() {
 	run := ev.NewRun("C15", "model_checking")
 	cfgs := configs(run.Tier)
 	thoroughTier = run.Tier == "thorough"
-	budget, perConfig := 55*time.Second, 25*time.Second
+	budget, perConfig := 58*time.Second, 32*time.Second
 	if run.Tier == "thorough" {
 		budget, perConfig = 18*time.Minute, 6*time.Minute
 	}
